@@ -76,8 +76,22 @@ def run_case(case, tier):
             else:
                 recs = recs + frag
             desc.update({"frag": case["frag"], "distance": dist, "anchor": anchor.text()[12:27] if anchor else None})
+    opts = []
+    if rng.random() < 0.35:
+        # scoring parameters a user may set in a parameter file; the signs and the configured
+        # bounds must hold for them as well
+        ov = {"desolvationAllowance": rng.choice((0.0, 0.05, 0.2, 0.6)),
+              "desolvationSurfaceScalingFactor": rng.choice((0.25, 0.0, 0.6)),
+              "Nmin": rng.choice((280, 150, 50)), "Nmax": rng.choice((560, 700))}
+        opts = ["-p", util.write_cfg(ov)]
+        classes.append("parameter-file")
+        desc["params"] = ov
+    if case["kind"] == "cutout" and rng.random() < 0.25:
+        from .. import multiconf
+        recs, d = multiconf.build(rng, base=[r for r in recs if r.raw is not None or r.tag == "ATOM  "])
+        classes.append("multi-conformation")
     text = pdbio.dump(recs)
-    run = obs.run_single(text, write_pka=False)
+    run = obs.run_single(text, opts, write_pka=False)
     counts["pipeline_runs"] = 1
     desc.update(sources.describe(recs))
     if run.exc:
@@ -85,6 +99,7 @@ def run_case(case, tier):
         return util.finish(case, viol, counts, classes, False, desc, inconclusive="raised " + run.exc)
     for name in run.rec["names"]:
         energy_mon.check_conformation(name, run.rec["confs"][name], viol, counts, classes)
+    energy_mon.check_average(run.rec["confs"]["AVR"], viol, counts)
     if case["kind"] == "fragment" and not case["frag"].startswith("ion:"):
         conf = run.rec["confs"][run.rec["names"][0]]
         got = {g["aid"][5]: g["type"] for g in conf["groups"] if g["aid"][4].strip() == frag[0].resn.strip() and g["aid"][2] == 900}
